@@ -1,49 +1,33 @@
 (* C02 — Unread request bodies never turn into requests.  Statements only; proofs live in
    Proof/BodyConsumeProof.v.  Model: Model/BodyConsume.v (serveConnCounted's body reading, Expect
-   branch, handler call, post-handler drain, requestStream.Read); spec: Spec/BodyConsumeSpec.v.
+   branch, handler call, bodyStreamUnread / timeout check, post-handler drain, requestStream.Read with
+   its sticky framing error); spec: Spec/BodyConsumeSpec.v.
 
-   The full statement ("for EVERY handler behaviour ...") is FALSE of the code as it is: see the
-   _refuted theorems (findings stream-detached-undrained, timeout-stream-undrained,
-   stream-error-not-sticky).  It is proved under the exact guard `safe`: when the handler was given
-   a live request stream, it leaves it attached to the request (no CloseBodyStream / ResetBody /
-   SetBody... / TimeoutError) and none of its Read calls returned an error other than io.EOF. *)
+   The theorems are unconditional in the handler's behaviour: reading nothing / k bytes / to EOF or
+   into an error, then nothing / detaching the stream (CloseBodyStream, ResetBody, SetBody...) /
+   TimeoutError / Hijack / Connection: close.  (Before the fixes 53c42a2 and 4a38611 they held only
+   under a guard and three refutation witnesses were theorems here; see findings/fixed.txt.) *)
 From FH Require Import Model.Base Model.BodyConsume Spec.BodyConsumeSpec Proof.BodyConsumeProof.
 Open Scope Z_scope.
 
 (* Whatever the configuration (StreamRequestBody on/off, MaxRequestBodySize, GetOnly, multipart
    pre-parsing, expectation callbacks, keep-alive), framing (none / Content-Length / any chunk split,
-   extensions, trailer, broken chunk terminators), body size and handler reads (none, k bytes, to EOF):
-   if the connection is kept alive, the next head parse starts exactly at the end of the framed body;
-   in particular a body without an end is never followed by another parse. *)
+   extensions, trailer, broken chunk terminators), body size and handler behaviour: if the connection
+   is kept alive, the next head parse starts exactly at the end of the framed body; in particular a
+   body without an end is never followed by another parse. *)
 Theorem C02_next_starts_at_body_end : forall c r evs off,
-  wf_cfg c -> wf_req r -> r_lim r = None -> safe c r ->
+  wf_cfg c -> wf_req r -> r_lim r = None ->
   serve_one c r = (evs, Some off) -> framed_len (r_fr r) = Some off.
 Proof. exact next_starts_at_body_end. Qed.
 Print Assumptions C02_next_starts_at_body_end.
 
-(* the guard in terms of inputs: any reading behaviour on a body that has an end, and not reading at
-   all on any body, is safe as long as the handler leaves the stream attached *)
-Theorem C02_safe_of_inputs : forall c r,
-  wf_cfg c -> wf_req r -> r_lim r = None -> kept r = true ->
-  (framed_len (r_fr r) <> None \/ r_rd r = RNone) -> safe c r.
-Proof. exact safe_of_inputs. Qed.
-Print Assumptions C02_safe_of_inputs.
-
-(* the unguarded statement is false: a handler that detaches the stream (witness), calls TimeoutError,
-   or reads into a broken chunk terminator leaves the server parsing at offset 8192 of a 10000-byte body
-   (resp. keeps the connection after a body that has no end) *)
-Theorem C02_next_starts_at_body_end_refuted :
-  exists c r evs off, wf_cfg c /\ wf_req r /\ r_lim r = None /\
-    serve_one c r = (evs, Some off) /\ framed_len (r_fr r) <> Some off.
-Proof. exact next_starts_at_body_end_refuted. Qed.
-Print Assumptions C02_next_starts_at_body_end_refuted.
-
-Theorem C02_refuted_witnesses :
-  (snd (serve_one wit_cfg wit_detach) = Some 8192 /\ framed_len (r_fr wit_detach) = Some 10000) /\
-  (snd (serve_one wit_cfg wit_timeout) = Some 8192 /\ framed_len (r_fr wit_timeout) = Some 10000) /\
-  (snd (serve_one wit_cfg wit_sticky) = Some 84 /\ framed_len (r_fr wit_sticky) = None).
-Proof. exact (conj refuted_detach (conj refuted_timeout refuted_sticky)). Qed.
-Print Assumptions C02_refuted_witnesses.
+(* the behaviours that used to desynchronise the connection now end it; a stream that was read to its
+   end may be detached without losing keep-alive *)
+Theorem C02_former_findings_close :
+  snd (serve_one wit_cfg wit_detach) = None /\ snd (serve_one wit_cfg wit_timeout) = None /\
+  snd (serve_one wit_cfg wit_sticky) = None /\ snd (serve_one wit_cfg wit_detach_read) = Some 10000.
+Proof. exact former_findings_close. Qed.
+Print Assumptions C02_former_findings_close.
 
 (* After a rejected expectation (ExpectHandler answering anything but 100, or ContinueHandler
    answering false) the iteration consists of the server's own response carrying Connection: close
@@ -58,7 +42,7 @@ Print Assumptions C02_rejected_expectation_closes.
 (* Whole connections, any number of pipelined requests: every head parse starts at a message
    boundary and the server never goes on at another offset. *)
 Theorem C02_body_bytes_never_parsed : forall c, wf_cfg c -> forall rs base,
-  Forall wf_req rs -> Forall (fun r => r_lim r = None) rs -> Forall (safe c) rs ->
+  Forall wf_req rs -> Forall (fun r => r_lim r = None) rs ->
   forall e, In e (serve c rs base) ->
     match e with
     | EParse off => In off (boundaries base rs)
@@ -74,23 +58,16 @@ Theorem C02_boundary_not_inside : forall rs, Forall wf_lens rs -> forall base of
 Proof. exact boundary_not_inside. Qed.
 Print Assumptions C02_boundary_not_inside.
 
-Theorem C02_body_bytes_never_parsed_refuted :
-  exists c rs id rel off, Forall wf_req rs /\ Forall (fun r => r_lim r = None) rs /\
-    In (EDesync id rel off) (serve c rs 0) /\ inside_some_message 0 rs off = true.
-Proof. exact body_bytes_never_parsed_refuted. Qed.
-Print Assumptions C02_body_bytes_never_parsed_refuted.
-
 (* The trace the model produces for any connection satisfies the property oracle `judge` — the
    same function Check/C02Check.v evaluates on the implementation's observed trace. *)
 Theorem C02_model_trace_judged : forall c, wf_cfg c -> forall rs base,
-  Forall wf_req rs -> Forall (fun r => r_lim r = None) rs -> Forall (safe c) rs ->
+  Forall wf_req rs -> Forall (fun r => r_lim r = None) rs ->
   judge c rs (filter visible (serve c rs base)) = true.
-Proof. intros c Wc rs base W L S. exact (proj1 (model_trace_judged c Wc rs base W L S)). Qed.
+Proof. intros c Wc rs base W L. exact (proj1 (model_trace_judged c Wc rs base W L)). Qed.
 Print Assumptions C02_model_trace_judged.
 
 (* partial: requests whose body is cut off by the peer (r_lim = Some a) are modelled and compared
-   with the implementation on every run (the server ends up at the end of input or parses what was
-   sent of the body, see the findings), but the theorems above are stated for complete inputs. *)
+   with the implementation on every run (the server ends up at the end of input or closes), but the theorems above are stated for complete inputs. *)
 
 (* non-vacuity *)
 Example C02_ex_stream_ignored_body :
